@@ -39,6 +39,7 @@ type Stream struct {
 
 	writes       int // number of Write calls so far
 	failWriteAt  int // fail the k-th Write (1-based); 0 = never
+	failFrom     int // fail every Write from the k-th on (1-based); 0 = never
 	shortWriteAt int // the k-th Write writes only half and returns an error
 	yieldOnWrite bool
 
@@ -98,6 +99,20 @@ func (s *Stream) FailWriteAt(k int) {
 	s.mu.Unlock()
 }
 
+// FailWritesFrom makes the k-th and every later Write fail.
+func (s *Stream) FailWritesFrom(k int) {
+	s.mu.Lock()
+	s.failFrom = k
+	s.mu.Unlock()
+}
+
+// Writes returns the number of Write calls so far.
+func (s *Stream) Writes() int {
+	s.mu.Lock()
+	defer s.mu.Unlock()
+	return s.writes
+}
+
 // ShortWriteAt makes the k-th Write (1-based) write half its bytes and fail.
 func (s *Stream) ShortWriteAt(k int) {
 	s.mu.Lock()
@@ -121,7 +136,7 @@ func (s *Stream) Write(p []byte) (int, error) {
 		s.mu.Unlock()
 		return 0, io.ErrClosedPipe
 	}
-	if s.failWriteAt != 0 && s.writes == s.failWriteAt {
+	if (s.failWriteAt != 0 && s.writes == s.failWriteAt) || (s.failFrom != 0 && s.writes >= s.failFrom) {
 		s.mu.Unlock()
 		return 0, ErrInjected
 	}
